@@ -24,6 +24,8 @@ func main() {
 	trace := fs.String("trace", "trace.ndjson", "ndjson trace to write")
 	seed := fs.Int64("seed", 1, "random seed")
 	repeat := fs.Int("repeat", 1, "executions per case (each builds fresh plugin instances)")
+	stale := fs.Bool("stale", false, "C10 variant: the preferred unwrap region returns a wrong data key when another region is available")
 	die(fs.Parse(os.Args[1:]))
+	kmsdrv.StaleFirst = *stale
 	die(kmsdrv.Replay(*in, *trace, *out, *seed, *repeat))
 }
